@@ -158,6 +158,9 @@ func runC10InBubble(c c10Case) (out kit.Outcome) {
 	case refused > 0:
 		o := kit.Viol(kind+":refused-with-room", "%d waiter(s) were refused although the backlog (4) had room and no timeout/cancel occurred", refused)
 		viol = &o
+	case busy > limit:
+		o := kit.Viol(kind+":over-limit", "%d tokens are held at once (limit %d): %d waiters were granted although only %d holder(s) released; spawn order %v; points %v", busy, limit, granted, h, order, trace)
+		viol = &o
 	case busy < limit && blocked > 0:
 		o := kit.Viol(kind+":lost-wakeup", "at quiescence with no time elapsed: %d of %d units free (busy=%d) yet %d waiter(s) still blocked (%d granted); %d holder(s) released; spawn order %v; points %v",
 			limit-busy, limit, busy, blocked, granted, h, order, trace)
